@@ -86,7 +86,7 @@ def run(module, cfg=None, cfg_text=None, workers=16, timeout=600, env=None, simu
         cfgp = os.path.join(SPEC_DIR, "cfg", cfg)
     meta = os.path.join(CACHE, "tlc", uuid.uuid4().hex)
     os.makedirs(meta, exist_ok=True)
-    cmd = ["java", "-XX:+UseParallelGC", "-Xmx" + heap]
+    cmd = ["java", "-XX:+UseParallelGC", "-Xmx" + heap, "-Xss64m"]
     if dfs:
         cmd.append("-Dtlc2.tool.queue.IStateQueue=StateDeque")
     cmd += ["-cp", JAR + ":" + DEPS, "tlc2.TLC", "-workers", str(workers), "-metadir", meta,
